@@ -22,10 +22,39 @@ def build():
     return exe
 
 
+def cleanup_shm():
+    """Remove what crashed or killed lab processes left under /dev/shm (their services are named vq<pid>_<n>)."""
+    try:
+        names = os.listdir("/dev/shm")
+    except OSError:
+        return
+    for n in names:
+        m = re.match(r"^qb-(\d+)-\d+-\d+-[A-Za-z0-9]{6}$", n)
+        if not m or os.path.exists("/proc/" + m.group(1)):
+            continue
+        d = os.path.join("/dev/shm", n)
+        try:
+            inside = os.listdir(d)
+        except OSError:
+            continue
+        if inside and all(("-vq" + m.group(1) + "_") in f for f in inside):
+            for f in inside:
+                try:
+                    os.unlink(os.path.join(d, f))
+                except OSError:
+                    pass
+            try:
+                os.rmdir(d)
+            except OSError:
+                pass
+
+
 def run_impl(exe, cases, timeout=900):
     """cases: list of lists of script lines -> list of (lines, crash)"""
     texts = ["\n".join(c) + "\n" for c in cases]
     res = C.run_cases(exe, texts, timeout=timeout)
+    if any(crash for _, crash in res):
+        cleanup_shm()
     out = []
     for lines, crash in res:
         end = [l for l in lines if l.startswith("END ")]
@@ -53,12 +82,12 @@ def run_model(model, impl, variant=None):
 
 def comparable(lines):
     """Lines both sides print: everything except the kernel-outcome lines."""
-    return [C.norm_nums(l) for l in lines if not l.startswith("e ")]
+    return [C.norm_nums(l) for l in lines if not (l.startswith("e ") or l.startswith("hb"))]
 
 
 # ---------------------------------------------------------------------------------------------- log parsing
 class Block:
-    __slots__ = ("op", "env", "cbs", "closed", "res", "st", "raw")
+    __slots__ = ("op", "env", "cbs", "closed", "res", "st", "raw", "hb", "mraw")
 
     def __init__(self, op):
         self.op = op          # tokens of the op line
@@ -68,6 +97,8 @@ class Block:
         self.res = None       # tokens of the r line
         self.st = None        # dict of the st line, or "closed"
         self.raw = []
+        self.hb = None        # (k, bytes) a raw handshake peer wrote during this op
+        self.mraw = 0         # msg_process calls on behalf of raw handshake peers
 
 
 def parse_blocks(lines):
@@ -88,6 +119,10 @@ def parse_blocks(lines):
             cur.env.append((t[1], int(t[2]), int(t[3])))
         elif t[0] == "M":
             cur.cbs.append(tuple(int(x) for x in t[1:6]))
+        elif t[0] == "hb":
+            cur.hb = (int(t[1]), bytes.fromhex(t[2]) if len(t) > 2 else b"")
+        elif t[0] == "M-raw":
+            cur.mraw += 1
         elif t[0] == "cb" and t[1] == "closed":
             cur.closed = True
         elif t[0] == "r":
@@ -253,24 +288,51 @@ def leftovers(lines):
 
 
 # ---------------------------------------------------------------------------------------------- C06 monitor
-def monitor_c06(lines):
-    """C06 over the implementation log: whatever the raw peer sent, msg_process is never told more than was
-    really sent nor more than the negotiated maximum; unaccepted peers reach neither accept's successor
-    callbacks nor msg_process; the server stays alive (ctl), releases everything (census/close)."""
+CONNREQ = 24          # sizeof(struct qb_ipc_connection_request); checked against the consts the harness prints? no: see below
+AUTH_ID = -1          # QB_IPC_MSG_AUTHENTICATE
+
+
+def _kv(tokens):
+    return dict((x.split("=")[0], int(x.split("=")[1])) for x in tokens if "=" in x and x.split("=")[1].lstrip("-").isdigit())
+
+
+def monitor_c06(lines, connreq=CONNREQ, auth_id=AUTH_ID):
+    """C06 stated over the implementation log alone (no model involved).
+    (a) a peer that is not an accepted client: connection_accept only after a complete request with the AUTHENTICATE id
+        has arrived from it, never more than once; msg_process never; the server keeps answering a well-behaved control
+        client; once every raw peer is gone the service holds exactly what it held before they came (poll-table
+        entries, descriptors, /dev/shm entries, references); nothing is left at close;
+    (b)/(c) an accepted client: msg_process is never told more than was really sent, nor more than the negotiated
+        maximum, and the bytes it sees are the sender's; no sanitizer report (checked by the caller via the exit status)."""
     blocks = parse_blocks(lines)
     mx = None
-    real = {}     # tag -> real length sent
+    real = {}          # tag -> real length sent
+    sent = {}          # raw peer -> bytes written so far
+    accepted = set()
+    open_raw = set()
+    baseline = None    # census with no raw peer around
+    main_alive = False
     for b in blocks:
         o = b.op
         what = "op " + " ".join(o)
         name = o[0]
+        if b.mraw:
+            return "%s: msg_process was called on behalf of a raw handshake peer" % what
+        if b.res is None and name not in ("mr",):
+            return "%s: no result (crash/hang inside the call?)" % what
         if name == "open":
-            if b.res is None or b.res[0] != "0":
+            if b.res[0] != "0":
                 return "open failed: %s" % b.res
             mx = int(b.res[1])
-        elif name in ("cs", "cv", "cx"):
+            main_alive = True
+            baseline = None
+        elif name == "serve":
+            if b.res[0] != "0":
+                return "serve failed: %s" % b.res
+            baseline = None
+        elif name in ("cs", "cv", "cx") and len(o) >= 3:
             real[int(o[2])] = int(o[1])
-        elif name == "rq":
+        elif name == "rq" and len(o) >= 5:
             real[int(o[4])] = int(o[1])
         elif name == "ctl":
             if b.res != ["1"]:
@@ -278,16 +340,43 @@ def monitor_c06(lines):
         elif name == "close":
             if b.res != ["0", "shm_left=0", "fds_delta=0"]:
                 return "close left residue: %s" % b.res
-        elif name == "census":
-            pass
         elif name == "hs":
-            if b.res is None:
-                return "%s: no result" % what
-            kv = dict(x.split("=") for x in b.res[1:] if "=" in x)
-            if int(kv.get("msgproc", "0")) != 0:
-                return "%s: msg_process was called for a peer that is not an accepted client" % what
-        if b.res is None and name not in ("mr",):
-            return "%s: no result (crash/hang inside the call?)" % what
+            kv = _kv(b.res[1:])
+            if not b.res[0].lstrip("-").isdigit() or int(b.res[0]) < 0:
+                continue          # the lab itself could not connect / ran out of slots: nothing to judge
+            k = int(b.res[0])
+            if b.hb is not None and k not in accepted:
+                sent[k] = sent.get(k, b"") + b.hb[1]
+            open_raw.add(k)
+            if kv.get("msgproc", 0) != 0:
+                return "%s: msg_process was called while handling a raw peer" % what
+            acc = kv.get("accept", 0)
+            if acc:
+                data = sent.get(k, b"")
+                ok = len(data) >= connreq and int.from_bytes(data[0:4], "little", signed=True) == auth_id
+                if not ok:
+                    return "%s: connection_accept was called for raw peer %d although it had not sent a complete " \
+                           "AUTHENTICATE request (%d bytes so far)" % (what, k, len(data))
+                if acc > 1 or k in accepted:
+                    return "%s: connection_accept was called more than once for raw peer %d" % (what, k)
+                accepted.add(k)
+        elif name in ("hx", "hh"):
+            kv = _kv(b.res[1:])
+            if kv.get("msgproc", 0) != 0:
+                return "%s: msg_process was called while handling a raw peer" % what
+            if name == "hx":
+                open_raw.discard(int(o[1]))
+        elif name == "census":
+            kv = _kv(b.res)
+            if not open_raw and baseline is None:
+                baseline = kv
+            elif not open_raw and baseline is not None and (mx is None or main_alive):
+                if kv != baseline:
+                    return "%s: every raw peer is gone but the service holds %s, before they came it held %s" % (
+                        what, kv, baseline)
+        if b.closed:
+            main_alive = False
+            baseline = None
         for (size, tag, mid, hsz, ok) in b.cbs:
             rl = real.get(tag)
             if rl is None:
